@@ -119,9 +119,10 @@ REGISTRY = {
     "C11": {
         "level": "fault_enumeration",
         "claim": "Every byte offset in both directions of the connect/select/first-data/linktest exchange is cut, for both roles (enumerated exhaustively), plus generated plans over peer close, T6/T7/T8/write-timeout/linktest stalls, Select.rsp refusals 2..255, 0-8 refused dials or failed listens and drawn backoff configurations; in virtual time every gap between reconnect attempts is compared exactly with the reference backoff sequence (start at initial, never decreasing, <= T5), the link must come back Selected with a working round trip and linktest, the reconnect counter must grow by one per successful re-dial, and nothing may be dialled or listened after Close. The pure backoff step is compared with the reference over (delay, multiplier incl. NaN/Inf, T5) triples.",
-        "trust": "HSMS-SS only (SECS-I recovery is exercised by C18's retry-limit cases). Durations up to 2^53 ns in the pure part (float64-exact range). ref/fsm.Backoff is written from the WithReconnectBackoff documentation.",
+        "trust": "Byte-offset enumeration on HSMS-SS; SECS-I recovery by fault kinds (TestC11Secs1: peer close/reset, line lost after ENQ, retry limit exhausted, unacknowledged block) with the same exact backoff oracle. Durations up to 2^53 ns in the pure part (float64-exact range). ref/fsm.Backoff is written from the WithReconnectBackoff documentation.",
         "technique": "property-based testing (rapid) + exhaustive fault-position enumeration on scripted connections in testing/synctest; model-based backoff oracle",
         "tests": [
+            {"name": "TestC11Secs1", "shards": 4, "shards_thorough": 16, "crash_is_violation": True},
             {"name": "TestC11Backoff", "shards": 4, "shards_thorough": 16},
             {"name": "TestC11Recovery", "shards": 8, "shards_thorough": 16},
             {"name": "TestC11CutEnumeration", "shards": 1},
